@@ -152,6 +152,10 @@ def df_attr(interp, df, name):
         return (c["n"], len(c["order"]))
     if name == "loc":
         return BoundLib("df.loc", df)
+    if name == "index":
+        # every frame of the model carries the default RangeIndex (module docstring)
+        from .lib import RangeVal
+        return RangeVal(0, c["n"])
     if name in c["cols"] and name not in ("round", "join", "groupby", "to_csv", "mean", "copy", "astype"):
         return _series(c["cols"][name], name)
     return BoundLib("df." + name, df)
@@ -407,7 +411,8 @@ def group_mean_frame(gb):
         cols[nm] = A.new_arr((G,), fn, "float" if dt != "complex" else "complex")
         order.append(nm)
     df = new_df(cols, order, G)
-    cur().heap[df.sid].meta["groupby"] = {"keys": kr, "n": n, "K": K, "G": G, "key_name": kname}
+    cur().heap[df.sid].meta["groupby"] = {"keys": kr, "n": n, "K": K, "G": G, "key_name": kname,
+                                          "values": {nm: gb.src[nm].reader() for nm in gb.names if nm != kname}}
     return df
 
 
